@@ -71,6 +71,9 @@ func c08Case(ctx *genCtx, ts *tape.Set, dir string) *genResult {
 	if pt.Intn(3) > 0 {
 		prof.NamedComposite = true // bias: mutually assignable types
 	}
+	if pt.Intn(4) == 0 {
+		prof.Q, prof.Ext, prof.Force = true, true, true // bias: several packages sharing types of a third one
+	}
 	w := world.Generate(ts.Fork("world"), prof)
 	if pt.Chance(1, 4) {
 		w.DrawPrefixes(ts.Fork("prefix"))
